@@ -20,6 +20,7 @@ type World struct {
 	IdP   []*sim.Cert // idp1, idp2 (RSA), idp3 (EC)
 	Atk   []*sim.Cert // atk1 (RSA), atk2 (EC)
 	SPEnc *sim.Cert
+	CA    *sim.Cert // issuer of Atk[0]'s certificate; a member of some stores (SPFor)
 	// Pool, when set, makes SPFor hand out one long-lived reconfigured SP for about half of the cases.
 	Pool *SPPool
 }
@@ -32,6 +33,11 @@ func NewWorld(now time.Time) *World {
 	for _, n := range []string{"atk1", "atk2"} {
 		w.Atk = append(w.Atk, sim.Wide(sim.K(n), now))
 	}
+	// a certification authority whose certificate some deployments put into the IdP store (next to the IdP's own): it
+	// issued the first attacker's certificate too - a valid chain to a store member is not membership
+	base := time.Date(now.Year(), 1, 1, 0, 0, 0, 0, time.UTC)
+	w.CA = sim.MintUsage(sim.K("idp4"), "verif-issuing-ca", base.AddDate(-12, 0, 0), base.AddDate(12, 0, 0), 93, 3)
+	w.Atk[0] = sim.MintIssuedBy(sim.K("atk1"), "verif-atk1", w.CA, base.AddDate(-10, 0, 0), base.AddDate(10, 0, 0), 94)
 	w.SPEnc = sim.Wide(sim.K("spenc"), now)
 	return w
 }
@@ -291,6 +297,9 @@ func SPFor(r *rand.Rand, w *World, signer *sim.Cert) (*saml2.SAMLServiceProvider
 				}
 			}
 		}
+	}
+	if r != nil && w.CA != nil && r.IntN(3) == 0 {
+		store = append(store, w.CA)
 	}
 	var sp *saml2.SAMLServiceProvider
 	var clk *SpyClock
